@@ -143,11 +143,15 @@ func (d *FDB) Update(f func(tx walletdb.ReadWriteTx) error, reset func()) error 
 	return err
 }
 
-// cntTx / cntBucket count the index writes of one transaction.
+// cntTx / cntBucket count the writes of one transaction to the header index
+// (top-level bucket "header-index"); other components' buckets (filter db,
+// ban store) are passed through uncounted.
 type cntTx struct {
 	walletdb.ReadWriteTx
 	n *int
 }
+
+const headerIndexBucket = "header-index"
 
 func (t *cntTx) wrap(b walletdb.ReadWriteBucket) walletdb.ReadWriteBucket {
 	if b == nil {
@@ -157,11 +161,18 @@ func (t *cntTx) wrap(b walletdb.ReadWriteBucket) walletdb.ReadWriteBucket {
 }
 
 func (t *cntTx) ReadWriteBucket(key []byte) walletdb.ReadWriteBucket {
-	return t.wrap(t.ReadWriteTx.ReadWriteBucket(key))
+	b := t.ReadWriteTx.ReadWriteBucket(key)
+	if string(key) != headerIndexBucket {
+		return b
+	}
+	return t.wrap(b)
 }
 
 func (t *cntTx) CreateTopLevelBucket(key []byte) (walletdb.ReadWriteBucket, error) {
 	b, err := t.ReadWriteTx.CreateTopLevelBucket(key)
+	if string(key) != headerIndexBucket {
+		return b, err
+	}
 	return t.wrap(b), err
 }
 
